@@ -21,7 +21,6 @@ RULE = ("seeded random programs of 12-30 public DataFrame operations over a pool
         "lengths, removal; non-trivial = program executed >= 8 steps successfully; distinct = distinct executed operation sequences")
 ASSUMPTIONS = [
     "broadcasting a scalar into a 0-row frame may either raise or give a 0-length column (both keep the table well-formed)",
-    "dict base-class mutators the class does not override (setdefault, |=, dict.update) are not driven",
     "an operation raising for a reason that belongs to another property is counted (op_raised) and not judged here; the receiver is still checked",
     "stable order is asserted for operations that do not change the column set (and select gives the requested order); update is exempt",
 ]
